@@ -574,6 +574,78 @@ def has_local_pkg_require(it, depth=0):
 
 # ------------------------------------------------------------------ the check
 
+# ------------------------------------------------------------------ relative module names (oracle only; not in the model)
+
+REL_LEAVES = ["hvr.sib", "hvr.a.b", "hvr.a.c.d", "hvr.inner.sib", "hvr.inner.deep.sib"]
+REL_PKGS = ["hvr", "hvr.a", "hvr.a.c", "hvr.inner", "hvr.inner.deep"]
+
+
+def relative_cases():
+    """(requiring package, dots, path segments, via_list, target module)"""
+    cases = []
+    for pkg in ["hvr", "hvr.inner", "hvr.inner.deep", "hvr.a"]:
+        comps = pkg.split(".")
+        for dots in range(1, len(comps) + 1):
+            base = comps[: len(comps) - (dots - 1)]
+            for leaf in REL_LEAVES:
+                lc = leaf.split(".")
+                if lc[: len(base)] != base:
+                    continue
+                path = lc[len(base):]
+                cases.append((pkg, dots, path, False, leaf))
+                cases.append((pkg, dots, path, True, leaf))
+    return cases
+
+
+def relative_files(cases):
+    files = {}
+    for p in REL_PKGS:
+        files[p.replace(".", "/") + "/__init__.hy"] = ""
+    for leaf in REL_LEAVES:
+        files[leaf.replace(".", "/") + ".hy"] = '(defmacro m [] "%s")\n' % leaf
+    texts = []
+    for k, (pkg, dots, path, via_list, leaf) in enumerate(cases):
+        if via_list:
+            form = "(require %s%s [%s :as S])" % ("." * dots, ".".join(path[:-1]), path[-1])
+            text = form + " (setv v (S.m))\n"
+        else:
+            form = "(require %s%s [m])" % ("." * dots, ".".join(path))
+            text = form + " (setv v (m))\n"
+        files["%s/rq%d.hy" % (pkg.replace(".", "/"), k)] = text
+        texts.append(form)
+    return files, texts
+
+
+def relative_requires(chk, root):
+    import importlib
+    cases = relative_cases()
+    files, texts = relative_files(cases)
+    mcm.write_modules(root, files)
+    importlib.invalidate_caches()
+    for k, ((pkg, dots, path, via_list, leaf), form) in enumerate(zip(cases, texts)):
+        segs = len(path) - (1 if via_list else 0)
+        modname = "%s.rq%d" % (pkg, k)
+        with warnings.catch_warnings():
+            warnings.simplefilter("ignore")
+            try:
+                got = importlib.import_module(modname).v
+            except Exception as e:
+                got = "%s: %s" % (type(e).__name__, str(e)[:80])
+        chk.count("relative:dots%d-segments%d%s" % (dots, segs, "-list" if via_list else ""))
+        chk.case("rel:" + modname + form, nontrivial=True,
+                 sample={"in_package": pkg, "form": form, "target": leaf} if k % 9 == 0 else None)
+        if got != leaf:
+            chk.fail("relative-module-name", {"in_package": pkg, "form": form, "dots": dots, "segments": segs}, got, leaf,
+                     "a package tree as written by props/c35.py:relative_files; module %s contains: %s; "
+                     "PYTHONPATH=%s:<root> python -c 'import hy, %s'" % (modname, form, vlib.REPO, modname))
+
+
+def m_relative_multi(rec, params):
+    i = rec["input"]
+    wrong = str(rec["observed"]).startswith("HyRequireError") or rec["observed"] in REL_LEAVES
+    return rec["key"] == "relative-module-name" and wrong and (i.get("dots", 0) >= 2 or i.get("segments", 0) >= 2)
+
+
 def m_prefixed_nonexported(rec, params):
     c = rec["input"].get("cause") or {}
     return rec["key"] == "require-prefixed-nonexported" and c.get("shape") in ("bare", "as") and c.get("exported") is False
@@ -596,6 +668,7 @@ def run(chk):
     ]
     chk.matchers["prefixed-require-honours-exports"] = m_prefixed_nonexported
     chk.matchers["local-package-require-runtime-error"] = m_local_package
+    chk.matchers["relative-require-multi-dot-or-segment"] = m_relative_multi
     chk.prove("Props/C35.v", ["Props/C35.vo", "MacroNS/LookupEncode.vo"], [macro_lookup.translate])
     thorough = chk.tier == "thorough"
     n_hist = 6000 if thorough else 500
@@ -616,6 +689,7 @@ def run(chk):
         import builtins
         missing = [n for n in CORE if n not in builtins._hy_macros]
         chk.obligation("the core names used by the generator are core macros of this hy (builtins._hy_macros)", not missing, str(missing))
+        relative_requires(chk, root)
         real = Real(hy)
         hists, exprs, obs = [], [], []
         probes = ["ma", "mb", "mc", "m_d", "when", "cond", "A.ma", "hvs_a.ma", "_pa"]
